@@ -37,6 +37,16 @@ def _tile_auth_decision(ex, st, post, result):
         full = z3.Or(full, opaque_eq_str(f(res.t), z3.StringVal('full')))
         partial = z3.Or(partial, opaque_eq_str(f(res.t), z3.StringVal('partial')))
     tile_true = z3.Or([opaque_is_true(e.result.t) for e in gets if isinstance(e.result, VOpaque)]) if gets else z3.BoolVal(False)
+    # the callback is told WHAT is requested: the ground extent of the requested tile (None only for capabilities)
+    from pyvc.values import VSeq
+    qe = cb[-1].kwargs.get('query_extent')
+    tbs = [e for i, e in T.evs(st, 'tile_bbox')]
+    req_ = post.env['request']
+    has_tile = ex.truth(st, ex.opaque_field_at(st, cb[-1], req_, 'tile'))
+    ext_ok = isinstance(qe, VSeq) and qe.concrete and len(qe.items) == 2 and bool(tbs) and qe.items[1] is tbs[0].result \
+        and any(a is req_ for a in tbs[0].args)
+    yield ('callback_sees_the_requested_extent', z3.Implies(has_tile, z3.BoolVal(bool(ext_ok))),
+           'for a tile request the authorization callback gets query_extent = (srs code, tile_bbox(request)) of that very request')
     yield ('served_only_if_authorized', z3.Or(full, z3.And(partial, tile_true)),
            "normal return => authorized == 'full', or 'partial' with the layer's tile permission True")
     yield ('full_means_unlimited', z3.BoolVal(True), '')
@@ -207,11 +217,26 @@ def _wms_filter_iteration(ex, st, k):
            'an authorized layer with a limited_to entry never reaches the renderer unwrapped')
 
 
+def _filter_runs_unless_permit_all(ex, st, post, result):
+    """the per-layer filtering is skipped only for the permit-all marker"""
+    import z3
+    import re
+    from pyvc.values import ObjSort, VFunc
+    auth = post.env['authorized_layers']
+    marker = ex.global_name(st, st.module, 'PERMIT_ALL_LAYERS')
+    nm = re.sub(r'[^A-Za-z0-9_]', '_', repr(marker))
+    is_all = z3.Function('opaque_is_' + nm, ObjSort, z3.BoolSort())(auth.t)
+    walked = bool(T.evs(st, 'keys'))
+    yield ('filter_skipped_only_for_permit_all', is_all == z3.BoolVal(not walked),
+           'actual_layers is walked and filtered for every authorization result except the permit-all marker')
+
+
 contract(WMS + 'WMSServer.filter_actual_layers', props=['C10'],
          types=dict(actual_layers='opaque', requested_layers='opaque', authorized_layers='opaque'), returns='none',
          default_callee='opaque', raises={'RequestError': True},
          opaque_spec={'load_limited_to': {'pure': True}, 'LimitedLayer': {'pure': True}, 'set': {'pure': True}, 'keys': {'pure': True}},
-         loops={0: dict(inv=[], types={}, body_trace=[_wms_filter_iteration]), 1: dict(inv=[], types={})})
+         loops={0: dict(inv=[], types={}, body_trace=[_wms_filter_iteration]), 1: dict(inv=[], types={})},
+         trace=[_filter_runs_unless_permit_all])
 
 
 # ---- LimitedLayer.get_info: outside the layer's limit no feature info (and no upstream request) ---------------------------
